@@ -60,7 +60,8 @@ inductive WinCase where
     V LBB0_2:  `lea eax,[rbx-1]; test eax,r12d; jne LBB0_3` / `lea eax,[r12-1]; test eax,ebx; je LBB0_28` / `tzcnt r15,rax`
     C prologue and LBB0_29: `lea e?x,[rcx-1]; test ..,r14d; je LBB0_4; jmp LBB0_1`,
     C LBB0_4:  `lea ebx,[r14-1]; test ebx,ecx; je LBB0_8` / `tzcnt r11,rcx`.
-    (`Proofs/StringWin.lean`, `winCase_spec`, gives the positional reading.) -/
+    (`Proofs/StringWin.lean`: `winCase_cases`, `winCase_quote`, `winCase_advance`, `winCase_esc` give the positional
+    reading - first quote before first backslash / neither / first backslash before first quote.) -/
 def winCase (a : Bytes) (pos : Nat) : WinCase :=
   let bs := (winMasks a pos).1
   let q := (winMasks a pos).2
@@ -152,8 +153,10 @@ def validateWinGo (a : Bytes) (start lim : Nat) : (fuel : Nat) → (pos dlen : N
 
 /-- `_parse_string_validate_only(src = &a[start], &lim, &str_length, &dst_length)`: `some (str_length, dst_length)` when
     the routine returns 1, `none` when it returns 0 (`mov r11,[rsi]; test r11,r11; je LBB0_30` is the `lim = 0` exit).
+    The first iteration is entered with `rsi = 0 < lim`; every further one only after the test at LBB0_29.
     Fuel: every iteration advances the source by at least 2 bytes, and beyond the end of `a` there are only zero bytes
-    (windows of kind `advance` until the limit is hit), so `a.size + 64` iterations exhaust every run that can succeed. -/
+    (windows of kind `advance` until the limit is hit), so `a.size + 64` iterations exhaust every run that can succeed
+    (`validateWin_fuel` in `Proofs/StringWin.lean`: no amount of fuel makes the loop succeed where this one fails). -/
 def validateWin (a : Bytes) (start lim : Nat) : Option (Nat × Nat) :=
   if lim = 0 then none else validateWinGo a start lim (a.size + 64) start 0
 
@@ -203,7 +206,8 @@ def copyWinGo (a : Bytes) : (fuel : Nat) → (pos : Nat) → (out : Bytes) → O
     Bytes of `dst` beyond the final length do not matter: the Go wrapper `parseStringSimd` (`parse_string_amd64.go`)
     only does `sh.Len += string_buf_loc - dst`, i.e. grows the string buffer by the returned length; whatever the
     32-byte stores left behind that point is outside the slice (and is overwritten by the next string).
-    Fuel as for `validateWin`: beyond the end of `a` no quote can be found, `none` is the run-away result. -/
+    Fuel as for `validateWin`: beyond the end of `a` no quote can be found, `none` is the run-away result
+    (`copyWin_fuel`). -/
 def copyWin (a : Bytes) (start : Nat) : Option Bytes :=
   copyWinGo a (a.size + 64) start #[]
 
